@@ -55,6 +55,7 @@ def pack_ins(evs):
             b["time_diff_ms"] = 0
         if ev == "ckpt":
             last_ckpt_digest = e["digest"]
+            b.setdefault("in_finalise", False)
         if ev == "resume":
             d = e["digest"]
             if last_ckpt_digest is None:
